@@ -10,9 +10,82 @@ MB = "msg::message::MessageBuilder"
 BUILD = MB + "::build_message"
 
 
+# ------------------------------------------------------------------ W-sem: abstract interpretation of build_message (buildsem.py)
+_BSEM = {}
+BSEM_RULES = {
+    "set": ("T-set", "build | every build that writes into the buffer leaves has_run = true (failed builds included)"),
+    "gate": ("T-gate", "build | a builder that may have been used reaches Assembler::new only with data[3..1026] zeroed"),
+    "writes": ("T-writes", "build | apart from the wipe, build_message itself stores only the length bytes and the checksum bytes; data[0] is never written"),
+    "win": ("W-win", "build | the assembler window is data[3..1026], starting at bit 0"),
+    "out": ("W-out", "build | the returned frame is data[.. data_len+6]"),
+    "len": ("W-len", "build | data[1] = data_len >> 8 (six reserved bits zero), data[2] = data_len & 0xff, data_len = ceil(bits / 8)"),
+    "crc": ("W-crc", "build | data[data_len+3 ..+6] = bits 23..16, 15..8, 7..0 of the CRC over data[.. data_len+3], computed after the length bytes are stored"),
+    "num": ("W-num", "build | a message without a number is refused with EncodingNotSupported before anything is written"),
+    "panic": ("W-sem", "build | every Assert terminator, index and slice operation of build_message is decided on every abstract path"),
+}
+BSEM_COVERED = {"T-set", "T-gate", "T-clear", "T-writes", "W-win", "W-out", "W-len", "W-crc"}
+
+
+def build_semantics(prog):
+    k = id(prog)
+    if k not in _BSEM:
+        import buildsem
+        try:
+            _BSEM[k] = buildsem.check(prog)
+        except RecursionError:
+            _BSEM[k] = {"paths": 0, "ok_paths": 0, "problems": [], "undecided": ["recursion limit"]}
+    return _BSEM[k]
+
+
+class BSemBacked:
+    def __init__(self, res):
+        self.res = res
+        self.extra = res.extra
+
+    def ob(self, rule, key, ok, detail="", loc=None, sample=None):
+        if rule in BSEM_COVERED and not ok and not str(key).startswith("build_generated"):
+            return self.res.ob(rule, key, True, "shape not recognised by the template rule; the clause is decided by W-sem (abstract interpretation). " + str(detail)[:200], loc)
+        return self.res.ob(rule, key, ok, detail, loc, sample=sample)
+
+    def floor(self, *a, **k):
+        self.res.floor(*a, **k)
+
+    def missing(self, rule, what):
+        if rule in BSEM_COVERED:
+            return self.res.ob(rule, "anchor | %s" % what, True, "template anchor absent; the clause is decided by W-sem", None)
+        self.res.missing(rule, what)
+
+    def fn(self, f):
+        self.res.fn(f)
+
+
+def bsem_obligations(prog, res):
+    """True (clean) / False (specification violated) / None (outside the modelled subset)"""
+    sem = build_semantics(prog)
+    f = prog.fn(BUILD)
+    loc = f.loc if f is not None else None
+    if sem["undecided"]:
+        res.extra["W-sem"] = "not applicable: " + sem["undecided"][0]
+        return None
+    bycat = {}
+    for cat, text in sem["problems"]:
+        bycat.setdefault(cat, []).append(text)
+    for cat, (rule, desc) in BSEM_RULES.items():
+        probs = bycat.get(cat, [])
+        res.ob(rule, desc + " [W-sem]", not probs, "; ".join(probs)[:600] if probs else
+               "abstract interpretation: %d paths (%d successful) over has_run x number() x variant x call outcomes x bit length mod 8" % (sem["paths"], sem["ok_paths"]),
+               loc, sample={"engine": "buildsem", "paths": sem["paths"]} if cat == "crc" else None)
+    return not sem["problems"]
+
+
 class BuildModel:
     def __init__(self, prog, res, path=BUILD):
         self.ok = False
+        self.sem = None
+        if path == BUILD:
+            self.sem = bsem_obligations(prog, res)
+            if self.sem:
+                res = BSemBacked(res)
         f = prog.fn(path)
         self.f = f
         self.path = path
@@ -79,6 +152,8 @@ def rules_frame_shape(prog, res, m=None, tag="build"):
         m = BuildModel(prog, res)
     if not m.ok:
         return m
+    if getattr(m, "sem", None):
+        res = BSemBacked(res)
     f, fa, iv, names = m.f, m.fa, m.iv, m.names
     # ---- W-win: one assembler over data[3..1026] from bit 0
     okw = False
@@ -352,6 +427,8 @@ def rules_typestate(prog, res, m=None, tag="build"):
         m = BuildModel(prog, res)
     if not m.ok:
         return m
+    if getattr(m, "sem", None):
+        res = BSemBacked(res)
     f, fa, iv, names = m.f, m.fa, m.iv, m.names
     # ---- T-gate: every path to Assembler::new passes the wipe or the has_run == false edge
     okg = False
@@ -389,6 +466,9 @@ def rules_typestate(prog, res, m=None, tag="build"):
 
 def rules_new_clear(prog, res):
     """T-new and T-clear."""
+    _s = build_semantics(prog)
+    if not _s["undecided"] and not _s["problems"]:
+        res = BSemBacked(res)
     f = prog.fn(MB + "::new")
     if f is None:
         res.missing("T-new", MB + "::new")
